@@ -1,12 +1,30 @@
 #!/usr/bin/env python3
 """Mutation self-test of tools/extract: run it on mutated copies of the sources and check that the
 changed fact is reported (the extractor is in the trusted base; this guards against it silently
-ignoring what it is supposed to read).  Exit 0 = every mutant was noticed."""
+ignoring what it is supposed to read).  Exit 0 = every mutant was noticed.
+
+With `--lean` (needs an up-to-date `lake build` of lean/): for every mutant whose effect is a changed
+transliteration in Generated/Funcs.lean, additionally compile the mutated Funcs.lean against the
+built project and require that the tie theorems (Props/C11.lean, Props/Tie.lean) NO LONGER check."""
 import json, os, re, shutil, subprocess, sys, tempfile
 
 ROOT = os.path.dirname(os.path.dirname(os.path.abspath(__file__)))
 REPO = os.environ.get('VERIF_REPO', '/repo')
 EXE = ROOT + '/.build/extract'
+
+BASE = {}      # facts of the unmutated sources (filled in by main)
+
+
+def changed(f, fn, *fragments):
+    """the transliteration of fn (Generated/Funcs.lean, facts['funcs']) differs from the baseline and
+    contains the given fragments; the Lean theorem <fn>_tied (Props/Tie.lean) is what then fails"""
+    t = f.get('funcs', {}).get(fn)
+    return t is not None and t != BASE['funcs'][fn] and all(x in t for x in fragments)
+
+
+def others_same(f, *fns):
+    return all(f['funcs'][k] == v for k, v in BASE['funcs'].items() if k not in fns)
+
 
 MUTANTS = [
     # (name, file, old, new, expectation on the facts / exit status)
@@ -33,18 +51,92 @@ MUTANTS = [
     ('constructFilename trims the extension of a user Filename too', 'snaps/snapshot.go',
      '\tif filename == "" {\n\t\tbase := filepath.Base(callerFilename)\n\t\tfilename = strings.TrimSuffix(base, filepath.Ext(base))\n',
      '\tif filename == "" {\n\t\tbase := filepath.Base(callerFilename)\n\t\tfilename = base\n',
-     lambda f, rc: rc == 0),      # the regenerated Funcs.lean differs: checked by the Lean theorem constructFilename_tied
+     lambda f, rc: rc == 0 and changed(f, 'constructFilename') and others_same(f, 'constructFilename')),      # the regenerated Funcs.lean differs: checked by the Lean theorem C11.constructFilename_tied
+    # --- tie by proof (tools/extract/funcs.go): the regenerated transliteration must change, or the
+    # extractor must refuse a construct outside its subset
+    ('snapshotPath joins a relative Dir even under -trimpath', 'snaps/snapshot.go',
+     '\tif !filepath.IsAbs(dir) && !isTrimBathBuild {\n', '\tif !filepath.IsAbs(dir) {\n',
+     lambda f, rc: rc == 0 and changed(f, 'snapshotPath', 'if (!(GoSnaps.fpIsAbs dir)) then') and others_same(f, 'snapshotPath')),
+    ('snapshotPath skips a different number of frames (opaque call no longer the declared one)', 'snaps/snapshot.go',
+     'callerFilename := baseCaller(3)', 'callerFilename := baseCaller(2)',
+     lambda f, rc: rc == 0 and 'snapshotPath' in f['funcs_failed'] and 'snapshotPath' not in f['funcs']),
+    ('escapeEndChars writes element 0 instead of the current one', 'snaps/snapshot.go',
+     '\t\tif s == endSequence {\n\t\t\tss[idx] = "/-/-/-/"', '\t\tif s == endSequence {\n\t\t\tss[0] = "/-/-/-/"',
+     lambda f, rc: rc == 0 and 'escapeEndChars' in f['funcs_failed'] and 'escapeEndChars' not in f['funcs']),
+    ('isNumber accepts one digit less', 'snaps/clean.go', "b[i] > '9'", "b[i] > '8'",
+     lambda f, rc: rc == 0 and changed(f, 'isNumber', '(56 : UInt8)') and others_same(f, 'isNumber')),
+    ('isNumber loop written as a range over bytes (outside the translated subset)', 'snaps/clean.go',
+     'for i := 0; i < len(b); i++ {\n\t\tif b[i] <', 'for i := range b {\n\t\tif b[i] <',
+     lambda f, rc: rc == 0 and 'isNumber' in f['funcs_failed'] and 'isNumber' not in f['funcs']),
+    ('getTestID slices the number one byte early', 'snaps/clean.go', 'b[separator+3 : len(b)-1]', 'b[separator+2 : len(b)-1]',
+     lambda f, rc: rc == 0 and changed(f, 'getTestID', '(separator + (2 : Int))') and others_same(f, 'getTestID')),
+    ('testSkipped treats every name prefix as a parent test', 'snaps/skip.go',
+     'strings.HasPrefix(testName, name+"/")', 'strings.HasPrefix(testName, name)',
+     lambda f, rc: rc == 0 and changed(f, 'testSkipped', '(GoSnaps.hasPrefix testName name)') and others_same(f, 'testSkipped')),
+    ('isSingleline no longer accepts a string without newline', 'snaps/diff.go',
+     'return i == len(s)-1 || i == -1', 'return i == len(s)-1',
+     lambda f, rc: rc == 0 and changed(f, 'isSingleline') and '(-1 : Int)' not in f['funcs']['isSingleline']),
+    ('intPadding repeats a negative count (panics)', 'snaps/diff.go',
+     'return strings.Repeat(" ", -diff), ""', 'return strings.Repeat(" ", diff), ""',
+     lambda f, rc: rc == 0 and changed(f, 'intPadding') and '(-diff)' not in f['funcs']['intPadding']),
+    ('FormatRangeUnified keeps the 1-based start for an empty range', 'internal/difflib/difflib.go',
+     '\tif length == 0 {\n\t\tbeginning--\n\t}\n', '',
+     lambda f, rc: rc == 0 and changed(f, 'FormatRangeUnified') and 'beginning - (1 : Int)' not in f['funcs']['FormatRangeUnified']),
     ('sjson ReplaceInPlace', 'match/utils.go', '\t\tOptimistic: true,\n', '\t\tOptimistic: true,\n\t\tReplaceInPlace: true,\n',
      lambda f, rc: rc == 0 and f['bools']['sjsonReplaceInPlace'] is True),
 ]
 
 
+def lean_rejects(gen_dir):
+    """compile gen_dir/Funcs.lean in place of the project's and re-check the tie theorems: True when
+    one of them fails (the mutant is caught by proof)"""
+    leandir = ROOT + '/lean'
+    built = leandir + '/.lake/build/lib/lean'
+    if not os.path.exists(built + '/GoSnaps/Props/Tie.olean'):
+        print('extractor self-test: --lean needs `lake build` in', leandir)
+        sys.exit(1)
+    which = subprocess.run(['lake', 'env', 'which', 'lean'], cwd=leandir, stdout=subprocess.PIPE).stdout.decode().split()
+    lean = which[-1]
+    d = tempfile.mkdtemp(prefix='extlean_')
+    try:
+        lib = d + '/lib'
+        subprocess.run(['cp', '-as', built, lib], check=True)
+        for e in ('olean', 'ilean'):
+            if os.path.lexists(lib + '/GoSnaps/Generated/Funcs.' + e):
+                os.remove(lib + '/GoSnaps/Generated/Funcs.' + e)
+        env = dict(os.environ, LEAN_PATH=lib)
+        shutil.copy(gen_dir + '/Funcs.lean', d + '/Funcs.lean')
+        r = subprocess.run([lean, 'Funcs.lean', '-o', lib + '/GoSnaps/Generated/Funcs.olean'], cwd=d, env=env,
+                           stdout=subprocess.PIPE, stderr=subprocess.STDOUT)
+        if r.returncode != 0:
+            return True       # the transliteration does not even elaborate
+        for f in ('GoSnaps/Props/C11.lean', 'GoSnaps/Props/Tie.lean'):
+            r = subprocess.run([lean, f], cwd=leandir, env=env, stdout=subprocess.PIPE, stderr=subprocess.STDOUT)
+            if r.returncode != 0:
+                return True
+        return False
+    finally:
+        shutil.rmtree(d, ignore_errors=True)
+
+
 def main():
-    if not os.path.exists(EXE):
+    with_lean = '--lean' in sys.argv[1:]
+    srcs = [os.path.join(ROOT, 'tools/extract', n) for n in os.listdir(ROOT + '/tools/extract') if n.endswith('.go')]
+    if not os.path.exists(EXE) or any(os.path.getmtime(p) > os.path.getmtime(EXE) for p in srcs):
+        os.makedirs(os.path.dirname(EXE), exist_ok=True)
         subprocess.run(['go', 'build', '-o', EXE, '.'], cwd=ROOT + '/tools/extract', check=True,
                        env=dict(os.environ, GOFLAGS='-mod=mod', GOPROXY='off', GOSUMDB='off', GOTOOLCHAIN='local'))
     bad = 0
     skipped = 0
+    d = tempfile.mkdtemp(prefix='extself_')
+    try:
+        r = subprocess.run([EXE, REPO, d], stdout=subprocess.PIPE, stderr=subprocess.STDOUT)
+        if r.returncode != 0:
+            print('extractor self-test: the extractor fails on the unmutated sources:', r.stdout.decode())
+            sys.exit(1)
+        BASE.update(json.load(open(d + '/facts.json')))
+    finally:
+        shutil.rmtree(d, ignore_errors=True)
     for name, rel, old, new, ok in MUTANTS:
         d = tempfile.mkdtemp(prefix='extself_')
         try:
@@ -62,6 +154,9 @@ def main():
             if not ok(facts, r.returncode):
                 bad += 1
                 print('extractor self-test: mutant NOT noticed:', name)
+            elif with_lean and 'changed' in ok.__code__.co_names and not lean_rejects(out):
+                bad += 1
+                print('extractor self-test: the tie theorems still check for the mutant:', name)
         finally:
             shutil.rmtree(d, ignore_errors=True)
     print('extractor self-test: %d mutants, %d not applicable to the current source, %d not noticed' % (len(MUTANTS), skipped, bad))
